@@ -23,7 +23,7 @@ func TestVerif(t *testing.T) {
 			"for every k from 1 to the number of mutating file-system operations it issues, the disk is frozen before the k-th one (every later operation fails without touching the disk, as after SIGKILL), " +
 			"and once more with the process ending right after the call returned; then the directory is reopened and checked: opens, every blob file matches its name, every index entry names an existing blob, tag map = before or after, earlier effects present. " +
 			"concurrent: six pairs of non-conflicting operations (tag|tag, tag|push manifest, untag|tag, push|push, tag|SaveIndex, push blob|tag) issued by two goroutines on one open store under every schedule within D<=2 [thorough D<=3] around three base schedulers x every crash point k = 0..16 counted over the mutating file-system operations of both (0: no crash): the directory reopens, blobs and index are valid, and the effect of every operation that returned nil is present. " +
-			"evaluations = crash points explored; non-trivial = distinct (history, k) with k after the first mutating operation of the interrupted call",
+			"the histories of length <= 2 are run once more on a layout whose index.json is a symbolic link to a file outside the layout directory. evaluations = crash points explored; non-trivial = distinct (history, k) with k after the first mutating operation of the interrupted call",
 		Assumptions: []string{
 			"process-kill model: kernel state = the system calls that completed; torn pages / lost unsynced data (power loss) are outside the property",
 			"the vos shim issues the same mutating system-call sequence as the os package (validated against strace by tools/crashconf, see DESIGN.md)",
@@ -62,7 +62,29 @@ func jobs(tier string) []driver.Job {
 			}})
 		}
 	}
+	// a layout whose index.json is a symbolic link to a file kept elsewhere (a shared volume)
+	for sh := 0; sh < 8; sh++ {
+		sh := sh
+		name := fmt.Sprintf("index.json-is-a-symlink/autogc=true/len<=2/shard%d.8", sh)
+		out = append(out, driver.Job{Name: name, Run: func(c *driver.Ctx) {
+			c.Explore(driver.Scenario{
+				Name: name, Sequential: true, Shard: sh, NShard: 8,
+				Make: func() (func(), func(*vs.Result) *driver.Fail) {
+					b, ch := run(c, d, ops, true, 2)
+					return func() { linkIndex = true; defer func() { linkIndex = false }(); b() }, ch
+				},
+			})
+		}})
+	}
 	return append(confJobs(th), append(concJobs(th), out...)...)
+}
+
+// linkIndex: replay turns index.json of the initialised layout into a symbolic link before the history starts.
+var linkIndex bool
+
+func rmLayout(dir string) {
+	os.RemoveAll(dir)
+	os.RemoveAll(dir + ".shared")
 }
 
 // replay runs hist on a fresh initialised layout under plan; it returns the
@@ -73,6 +95,20 @@ func replay(d *DAG, hist []Op, autogc bool, plan *vos.Plan, upto int) (dir strin
 	st, err := oci.New(dir) // initialisation is not part of the interrupted history
 	if err != nil {
 		panic(err)
+	}
+	if linkIndex {
+		if err := os.Mkdir(dir+".shared", 0o755); err != nil {
+			panic(err)
+		}
+		if err := os.Rename(filepath.Join(dir, "index.json"), filepath.Join(dir+".shared", "index.json")); err != nil {
+			panic(err)
+		}
+		if err := os.Symlink(filepath.Join("..", filepath.Base(dir)+".shared", "index.json"), filepath.Join(dir, "index.json")); err != nil {
+			panic(err)
+		}
+		if st, err = oci.New(dir); err != nil {
+			panic(err)
+		}
 	}
 	st.AutoGC = autogc
 	vos.SetPlan(plan)
@@ -148,12 +184,12 @@ func run(c *driver.Ctx, d *DAG, ops []Op, autogc bool, depth int) (func(), func(
 		dirB, stB, _ := replay(d, hist, autogc, planB, last)
 		before := Observe(stB, d, refs, false)
 		n0 := planB.NMut
-		os.RemoveAll(dirB)
+		rmLayout(dirB)
 		planA := &vos.Plan{Budget: 50000, KeepLog: true}
 		dirA, stA, _ := replay(d, hist, autogc, planA, len(hist))
 		after := Observe(stA, d, refs, false)
 		n1 := planA.NMut
-		os.RemoveAll(dirA)
+		rmLayout(dirA)
 		c.Count("histories", 1)
 		// the process ends right after the last operation returned (no further system call is lost): what is
 		// on disk must already be the state after it - also when the operation issued no write at all
@@ -164,7 +200,7 @@ func run(c *driver.Ctx, d *DAG, ops []Op, autogc bool, depth int) (func(), func(
 			c.Count("crash_points", 1)
 			desc := fmt.Sprintf("history: %s\nthe process ends after the last call returned (it issued %d mutating file-system operations)", hs, n1-n0)
 			f := recoverCheck(d, dir, after, after, desc, "return of the last call")
-			os.RemoveAll(dir)
+			rmLayout(dir)
 			if f != nil {
 				fail = f
 				return
@@ -181,10 +217,10 @@ func run(c *driver.Ctx, d *DAG, ops []Op, autogc bool, depth int) (func(), func(
 			desc := fmt.Sprintf("history: %s\ncrash before mutating file-system operation %d of the last call (%d..%d); that operation: %s", hs, k-n0, n0+1, n1, opAt(planA, k))
 			if f := recoverCheck(d, dir, before, after, desc, opAt(planA, k)); f != nil {
 				fail = f
-				os.RemoveAll(dir)
+				rmLayout(dir)
 				return
 			}
-			os.RemoveAll(dir)
+			rmLayout(dir)
 		}
 	}
 	check := func(res *vs.Result) *driver.Fail {
